@@ -101,6 +101,21 @@ Variants == [n \in 1..(2 * Len(ZSeq)) |->
                                             ELSE IF a[i] = 3 /\ PrevActive(i) THEN 3
                                             ELSE DbMark(PrevActive(i), TRUE, a[i] \in {1, 3})]]]
 
+\* construction route "file": the forms in which the set is written (who is closed, trailing separator)
+Polys == [i \in 1..Len(es) |-> es[i].v]
+FileForms == << [closed |-> [i \in 1..Len(es) |-> FALSE], trail |-> FALSE],
+                [closed |-> [i \in 1..Len(es) |-> FALSE], trail |-> TRUE],
+                [closed |-> [i \in 1..Len(es) |-> TRUE], trail |-> FALSE],
+                [closed |-> [i \in 1..Len(es) |-> i < Len(es)], trail |-> FALSE],
+                [closed |-> [i \in 1..Len(es) |-> i % 2 = 0], trail |-> TRUE] >>
+Files == [f \in 1..Len(FileForms) |->
+            [closed |-> [i \in 1..Len(es) |-> IF FileForms[f].closed[i] THEN 1 ELSE 0],
+             trail |-> IF FileForms[f].trail THEN 1 ELSE 0,
+             rows |-> FileRows(Polys, FileForms[f].closed, FileForms[f].trail)]]
+\* every form describes the set itself: the answers expected from the set read from the file are those of
+\* the API-built set without vertical limits (the variants with z = NoZ)
+Inv_Files == Len(es) >= 1 => \A f \in 1..Len(FileForms) : FileDescribes(Files[f].rows, Polys)
+
 Inv_Emit == (Len(es) >= MinEmit /\ Len(es) >= 1) =>
-              PrintT(ToJson([k |-> "set", e |-> es, var |-> Variants]))
+              PrintT(ToJson([k |-> "set", e |-> es, var |-> Variants, files |-> Files]))
 =============================================================================
